@@ -621,3 +621,429 @@ def cell_names(h):
     if h.kind == "grid":
         return [fmt_name(c) for c in itertools.product(*(range(d) for d in h.dims))]
     return [str(i) for i in range(h.n)]
+
+
+# --------------------------------------------------------------------------------------
+# C06 generator (histories of placing / moving / un-placing / removing + emptiness queries)
+
+DIR_NAMES = ["n", "north", "up", "s", "south", "down", "e", "east", "right", "w", "west", "left", "ne", "northeast",
+             "upright", "nw", "northwest", "upleft", "se", "southeast", "downright", "sw", "southwest", "downleft"]
+
+
+def _rand_case(R, s):
+    return "".join(ch.upper() if R.random() < 0.3 else ch for ch in s)
+
+
+def gen_key(R, h, impl, a):
+    """a connection key for `move_relative`: mostly one that exists at the agent's cell"""
+    cell = impl.agents[a].cell if a < len(impl.agents) else None
+    if cell is not None and cell.connections and R.random() < 0.75:
+        return fmt_name(R.choice(list(cell.connections)))
+    if h.kind == "grid":
+        return ",".join(str(R.choice([-1, 0, 1])) for _ in h.dims)
+    if h.kind == "net":
+        return str(R.randrange(h.n))
+    return f"{R.randrange(h.n)},{R.randrange(h.n)}"
+
+
+def gen_draws(R, impl, want_hit):
+    """draw script for select_random_empty_cell: some misses, then (usually) a hit"""
+    sp = impl.space
+    cells = list(sp.all_cells)
+    n = len(cells)
+    if getattr(sp, "_try_random", False) and impl.h.kind == "grid":
+        occupied = [i for i, c in enumerate(cells) if not c.is_empty]
+        empty = [i for i, c in enumerate(cells) if c.is_empty]
+        draws = [R.choice(occupied) + n * R.randrange(3) for _ in range(R.randrange(0, 4))] if occupied else []
+        if empty and want_hit:
+            draws.append(R.choice(empty) + n * R.randrange(3))
+        return draws
+    return [R.randrange(0, 3 * n)] if want_hit else []
+
+
+def gen_c06(R, rejecting=False, n_ops=None, header=None):
+    hd = header or (gen_header(R) if not rejecting else
+                    R.choice([gen_grid_header(R, max_size=3, caps=(1, 1, 1, 2), max_cells=12),
+                              gen_grid_header(R, max_size=3, caps=(1, 1, 1, 2), max_cells=12),
+                              gen_net_header(R, max_nodes=5, caps=(1, 1, 2)),
+                              gen_vor_header(R, max_points=5, caps=(1, 1, 2))]))
+    lines = [hd]
+    impl = Impl(hd.split())
+    h = impl.h
+    names = cell_names(h)
+    two_d = h.kind == "grid" and len(h.dims) == 2
+
+    def emit(l):
+        lines.append(l)
+        impl.line(l.split())
+
+    def new_agent():
+        k = R.random()
+        if k < (0.45 if two_d else 0.15):
+            emit("new g2d")
+        elif k < 0.8:
+            emit("new cell")
+        else:
+            emit("new fixed")
+
+    for _ in range(R.randint(2, 7) if not rejecting else R.randint(3, 8)):
+        new_agent()
+        if R.random() < 0.75:
+            emit(f"set {len(impl.agents) - 1} {R.choice(names)}")
+
+    def pick(pred):
+        g = [i for i, x in enumerate(impl.agents) if pred(x)]
+        return R.choice(g) if g else None
+
+    for _ in range(n_ops or R.randint(10, 45)):
+        na = len(impl.agents)
+        a = R.randrange(na) if R.random() < 0.97 else na + R.randrange(2)
+        kind = type(impl.agents[a]).__name__ if a < na else "?"
+        k = R.random()
+        if R.random() < 0.85:
+            # movement calls mostly on agents that can move and are placed
+            m = pick(lambda x: type(x).__name__ != "FixedAgent" and x.cell is not None)
+            g = pick(lambda x: type(x).__name__ == "Grid2DMovingAgent" and x.cell is not None)
+        else:
+            m = g = None
+        m = a if m is None else m
+        g = a if g is None else g
+        if rejecting:
+            # mostly calls that are likely to be rejected, interleaved with valid ones
+            full = [n for n in names if impl.space[h.key(n)].is_full]
+            if k < 0.30 and full:
+                emit(f"{R.choice(['set', 'moveto'])} {a} {R.choice(full)}")
+            elif k < 0.50:
+                emit(f"moverel {m} {gen_key(R, h, impl, m)}")
+            elif k < 0.68:
+                emit(f"move {g} {_rand_case(R, R.choice(DIR_NAMES + ['back']))} {R.choice([1, 2, 3, 4, 7])}")
+            elif k < 0.80:
+                emit(f"set {a} {R.choice(names)}")
+            elif k < 0.85:
+                emit(f"set {a} -")
+            elif k < 0.90:
+                emit(f"remove {a}")
+            elif k < 0.95:
+                new_agent()
+            else:
+                emit("randempty " + " ".join(map(str, gen_draws(R, impl, True))))
+            continue
+        if k < 0.24:
+            emit(f"set {a} {R.choice(names)}")
+        elif k < 0.29:
+            emit(f"set {a} -")
+        elif k < 0.32:
+            # re-enter the cell the agent is in
+            c = impl.agents[a].cell if a < na else None
+            emit(f"set {a} {impl.cname(c)}")
+        elif k < 0.42:
+            emit(f"moveto {a} {R.choice(names)}")
+        elif k < 0.57:
+            emit(f"moverel {m} {gen_key(R, h, impl, m)}")
+        elif k < (0.68 if two_d else 0.60):
+            emit(f"move {g} {_rand_case(R, R.choice(DIR_NAMES + ['back']))} {R.choice([0, 1, 1, 1, 2, 2, 3, 5, -1])}")
+        elif k < 0.74:
+            emit(f"remove {a}")
+        elif k < 0.80:
+            new_agent()
+        elif k < 0.83:
+            emit(f"tryrandom {R.randint(0, 1)}")
+        elif k < 0.95:
+            emit("randempty " + " ".join(map(str, gen_draws(R, impl, R.random() < 0.9))))
+        elif k < 0.97:
+            emit(f"randcell {R.randrange(0, 100)}")
+        elif k < 0.985:
+            # a coordinate that is no cell
+            bad = ",".join(str(d + R.randrange(2)) for d in h.dims) if h.kind == "grid" else str(h.n + R.randrange(3))
+            emit(f"{R.choice(['set', 'moveto'])} {a} {bad}")
+        else:
+            emit(f"randcell")
+    return core.Scenario(lines)
+
+
+# --------------------------------------------------------------------------------------
+# C06 oracle: the property's clauses on what the implementation showed
+
+PLACING = ("set", "moveto", "moverel", "move")
+
+
+def oracle_c06(sc, obs, reject_clause=True):
+    bad = []
+    h = Header(sc.lines[0].split())
+    if obs[0] != "ok":
+        return bad
+    names = cell_names(h)
+    cap = h.cap
+    prev = None
+    for line, o in zip(sc.lines[1:], obs[1:]):
+        w = line.split()
+        if w[0] in ("conns", "nbhd", "nbprop", "mask"):
+            continue
+        res, d = parse_dump(o)
+        if not d:
+            bad.append(f"no-dump: {line} -> {o[:60]}")
+            continue
+        occ = {n: [] for n in names}
+        for t in d["occ"]:
+            c, _, l = t.partition(":")
+            occ[c] = l.split(".")
+        ag = dict(t.split(":") for t in d["ag"])
+        reg = set(d["reg"])
+        # mirror: every agent still in the model is listed exactly once, in exactly the cell it reports
+        for a, c in ag.items():
+            if a not in reg:
+                continue
+            where = [n for n in names for x in occ[n] if x == a]
+            if c == "-":
+                if where:
+                    bad.append(f"mirror: after `{line}` agent {a} reports no cell but is listed in {where}")
+            elif where != [c]:
+                bad.append(f"mirror: after `{line}` agent {a} reports cell {c} but is listed in {where}")
+        # capacity
+        if cap:
+            for n in names:
+                if len(occ[n]) > cap:
+                    bad.append(f"capacity: after `{line}` cell {n} holds {len(occ[n])} > {cap}")
+        # emptiness views
+        truth = [n for n in names if not occ[n]]
+        if d["empty"] != truth:
+            bad.append(f"view-is_empty: after `{line}` is_empty cells {d['empty']} != {truth}")
+        if cap is not None:
+            tf = [n for n in names if len(occ[n]) == cap]
+            if d["full"] != tf:
+                bad.append(f"view-is_full: after `{line}` is_full cells {d['full']} != {tf}")
+        elif d["full"]:
+            bad.append(f"view-is_full: after `{line}` cells {d['full']} full without a capacity")
+        if h.kind == "grid":
+            if d["layer"] != truth:
+                bad.append(f"view-layer: after `{line}` grid.empty.data true at {d['layer']} != empty cells {truth}")
+            if d["pempty"] != truth:
+                bad.append(f"view-cell.empty: after `{line}` cell.empty true at {d['pempty']} != empty cells {truth}")
+        if sorted(d["empties"]) != sorted(truth):
+            bad.append(f"view-empties: after `{line}` space.empties {d['empties']} != {truth}")
+        if sorted(d["agents"]) != sorted(x for n in names for x in occ[n]):
+            bad.append(f"view-agents: after `{line}` space.agents {d['agents']} != cell contents")
+        # select_random_empty_cell only returns empty cells
+        if w[0] == "randempty" and res.startswith("ok"):
+            if res.split()[1] not in truth:
+                bad.append(f"randempty: `{line}` returned occupied cell {res.split()[1]}")
+        # removing an agent takes it out of its cell
+        if w[0] == "remove" and res == "ok":
+            if any(w[1] in occ[n] for n in names):
+                bad.append(f"remove: after `{line}` agent {w[1]} is still listed in a cell")
+            if w[1] in reg:
+                bad.append(f"remove: after `{line}` agent {w[1]} is still registered")
+        # (C18) a rejected placing call changes nothing
+        if reject_clause and w[0] in PLACING and res.startswith("err") and prev is not None and d != prev:
+            diff = [k for k in d if d[k] != prev.get(k)]
+            bad.append(f"reject-unchanged: `{line}` raised ({res}) but changed {diff}")
+        prev = d
+    return bad
+
+
+def tags_c06(sc, obs):
+    w0 = sc.lines[0].split()
+    yield "space:" + (w0[2] if w0[1] == "grid" else w0[1])
+    if w0[1] == "grid":
+        yield f"axes:{len(w0[5].split(','))}"
+        yield "torus:" + w0[3]
+        yield "cap:" + w0[4]
+    else:
+        yield "cap:" + (w0[3] if w0[1] == "net" else w0[2])
+    prev = None
+    for l, o in zip(sc.lines[1:], obs[1:]):
+        w = l.split()
+        res = o.split(" | ")[0]
+        yield "op:" + w[0]
+        if res.startswith("err"):
+            yield f"reject:{w[0]}:{res.split()[1]}"
+        if w[0] == "randempty" and res.startswith("ok"):
+            yield "randempty:" + ("retry" if len(w) > 2 else "first-draw")
+        if w[0] in PLACING and res == "ok" and prev is not None:
+            _, d = parse_dump(o)
+            a = dict(t.split(":") for t in d["ag"]).get(w[1])
+            b = dict(t.split(":") for t in prev["ag"]).get(w[1])
+            if a == b and a not in (None, "-"):
+                yield "branch:re-entered-own-cell"
+        if "|" in o:
+            prev = parse_dump(o)[1]
+
+
+# --------------------------------------------------------------------------------------
+# C07: query scenarios, exhaustive small scope, oracle
+
+
+def grid_header(kind, torus, dims, cap=None):
+    return f"scenario grid {kind} {int(torus)} {'-' if cap is None else cap} {','.join(map(str, dims))}"
+
+
+def exhaustive_queries(hd, radii=(1, 2, 3), reverse=False, with_mask=False):
+    """every cell x every radius x both flags (+ connections), in one of two query orders"""
+    h = Header(hd.split())
+    names = cell_names(h)
+    lines = [hd]
+    if not reverse:
+        for n in names:
+            lines.append(f"conns {n}")
+        for n in names:
+            for r in radii:
+                for ic in (0, 1):
+                    lines.append(f"nbhd {n} {r} {ic}")
+            lines.append(f"nbprop {n}")
+            if with_mask:
+                lines.append(f"mask {n} {radii[-1]} 1")
+    else:
+        for n in reversed(names):
+            lines.append(f"nbprop {n}")
+            for r in reversed(radii):
+                for ic in (1, 0):
+                    lines.append(f"nbhd {n} {r} {ic} k")
+            if with_mask:
+                lines.append(f"mask {n} 1 0")
+        for n in names:
+            lines.append(f"conns {n}")
+    return core.Scenario(lines, {"exhaustive": True})
+
+
+def exhaustive_c07(tier):
+    """all Moore/VN grids with <= 3 axes of size <= 4 (thorough: + 4 axes of size <= 3, radius <= 5), hex grids <= 6x6
+    (quick: <= 4x4 plus 6x6), torus on/off, two query orders"""
+    out = []
+    quick = tier == "quick"
+    radii = (1, 2, 3) if quick else (1, 2, 3, 4, 5)
+    top = 3 if quick else 4
+    dimsets = []
+    for n in (1, 2, 3):
+        dimsets += list(itertools.product(range(1, (top if n == 3 else 4) + 1), repeat=n))
+    if not quick:
+        dimsets += list(itertools.product(range(1, 4), repeat=4))
+    k = 0
+    for dims in dimsets:
+        for kind in ("moore", "vn"):
+            for torus in (0, 1):
+                k += 1
+                out.append(exhaustive_queries(grid_header(kind, torus, dims), radii, reverse=bool(k % 2), with_mask=True))
+    hexd = list(itertools.product(range(1, 5), repeat=2)) + [(6, 6), (5, 6), (1, 6), (6, 2)] if quick else \
+        list(itertools.product(range(1, 7), repeat=2))
+    for dims in hexd:
+        for torus in (0, 1):
+            k += 1
+            out.append(exhaustive_queries(grid_header("hex", torus, dims), radii, reverse=bool(k % 2), with_mask=True))
+    return out
+
+
+def gen_c07(R, tier):
+    k = R.random()
+    if k < 0.40:
+        kind = R.choice(["moore", "vn"])
+        n = R.choice([1, 2, 2, 3, 3, 4])
+        mx = {1: 9, 2: 6, 3: 4, 4: 3}[n]
+        dims = tuple(R.choice([1, 1, 2, 2] + list(range(1, mx + 1))) for _ in range(n))
+        hd = grid_header(kind, R.randint(0, 1), dims, R.choice([None, 2]))
+    elif k < 0.52:
+        # hex; odd offset-axis sizes on a torus are outside the property's quantifier but the model follows the code
+        hd = grid_header("hex", R.randint(0, 1), (R.randint(1, 6), R.choice([1, 2, 2, 3, 4, 4, 5, 6, 6])), None)
+    elif k < 0.80:
+        hd = gen_net_header(R, max_nodes=12, caps=(None,), directed_p=0.2)
+    else:
+        hd = gen_vor_header(R, max_points=9 if tier == "thorough" else 8, caps=(None,))
+    h = Header(hd.split())
+    names = cell_names(h)
+    lines = [hd]
+    rmax = 5 if tier == "thorough" else 4
+    qs = []
+    for _ in range(R.randint(8, 40)):
+        n = R.choice(names)
+        t = R.random()
+        if t < 0.15:
+            qs.append(f"conns {n}")
+        elif t < 0.75:
+            r = R.choice([1, 1, 2, 2, 3, rmax, 0])
+            qs.append(f"nbhd {n} {r} {R.randint(0, 1)} {R.choice('pkm')}")
+        elif t < 0.85:
+            qs.append(f"nbprop {n}")
+        elif t < 0.97:
+            qs.append(f"mask {n} {R.choice([1, 2, 3])} {R.randint(0, 1)}")
+        else:
+            qs.append(f"conns {h.n + 1 if h.kind != 'grid' else ','.join(str(d) for d in h.dims)}")
+    # repetition and a second order of the same queries: answers must not depend on earlier queries
+    qs += [R.choice(qs) for _ in range(len(qs) // 2)]
+    R.shuffle(qs)
+    return core.Scenario(lines + qs)
+
+
+def oracle_c07(sc, obs):
+    bad = []
+    h = Header(sc.lines[0].split())
+    if obs[0] != "ok":
+        # the constructor may only refuse what is outside the property's quantifier
+        if not (h.kind == "grid" and (any(d < 1 for d in h.dims) or (h.grid == "hex" and len(h.dims) != 2))):
+            bad.append(f"construct: {sc.lines[0]} -> {obs[0]}")
+        return bad
+    conn = spec_connections(h)
+    symmetric = not (h.kind == "net" and h.directed) and not (h.kind == "grid" and h.grid == "hex" and h.torus and h.dims[1] % 2)
+    if symmetric:
+        for c, m in conn.items():
+            for t in m.values():
+                assert c in conn[t].values(), "spec geometry must be symmetric"
+    for line, o in zip(sc.lines[1:], obs[1:]):
+        w = line.split()
+        if w[0] not in ("conns", "nbhd", "nbprop", "mask"):
+            continue
+        try:
+            c = h.key(w[1])
+        except ValueError:
+            continue
+        if c not in conn:
+            if o != "err Key":
+                bad.append(f"no-such-cell: `{line}` -> {o}")
+            continue
+        if w[0] == "conns":
+            items = sorted((k if isinstance(k, tuple) else (k,), v) for k, v in conn[c].items())
+            want = "ok " + " ".join(f"{fmt_name(k)}>{fmt_name(v)}" for k, v in items)
+            if o.strip() != want.strip():
+                bad.append(f"connections: `{line}` gave `{o}`, the geometry says `{want}`")
+            continue
+        if w[0] == "mask" and h.kind != "grid":
+            continue
+        r, ic = (1, False) if w[0] == "nbprop" else (int(w[2]), w[3] == "1")
+        if r < 1:
+            if o != "err Value":
+                bad.append(f"radius: `{line}` -> {o}")
+            continue
+        cells = within(conn, c, r)
+        if not ic:
+            cells.discard(c)
+        want = "ok " + " ".join(fmt_name(k) for k in sorted(k if isinstance(k, tuple) else (k,) for k in cells))
+        if o.strip() != want.strip():
+            what = "mask" if w[0] == "mask" else "neighbourhood"
+            bad.append(f"{what}: `{line}` gave `{o}`, within {r} hops (centre {'in' if ic else 'ex'}cluded) is `{want}`")
+    return bad
+
+
+def tags_c07(sc, obs):
+    w0 = sc.lines[0].split()
+    yield "space:" + (w0[2] if w0[1] == "grid" else w0[1])
+    if w0[1] == "grid":
+        dims = w0[5].split(",")
+        yield f"axes:{len(dims)}"
+        yield "torus:" + w0[3]
+        if "1" in dims:
+            yield "axis-of-size-1"
+        if "2" in dims:
+            yield "axis-of-size-2"
+    if w0[1] == "net" and w0[2] == "1":
+        yield "directed"
+    seen = set()
+    for l, o in zip(sc.lines[1:], obs[1:]):
+        w = l.split()
+        yield "op:" + w[0]
+        if w[0] == "nbhd":
+            yield f"radius:{w[2]}"
+        if o.startswith("err"):
+            yield f"reject:{w[0]}:{o.split()[1]}"
+        if o == "ok":
+            yield f"empty-answer:{w[0]}"
+        if l in seen:
+            yield "repeated-query"
+        seen.add(l)
